@@ -249,6 +249,24 @@ Theorem psub_src_is_model :
 Proof. exact PolyGenProofs.psub_src_is_model. Qed.
 Print Assumptions psub_src_is_model.
 
+(** operator-= has the guard for an operand that is the object itself (`S -= S`: without it the loop erases the entry it visits) *)
+Theorem gen_sub_alias_guard_is_model : gen_sub_assign_alias_guard = true.
+Proof. exact PolyGenProofs.gen_sub_alias_guard_is_model. Qed.
+Print Assumptions gen_sub_alias_guard_is_model.
+
+(** [psub_assign_src aliased a b]: operator-= as generated, [aliased] = the outcome of the test &op == this *)
+Theorem psub_assign_src_distinct :
+  forall (K : Type) (kadd ksub : K -> K -> K) (kopp : K -> K) (ksmall : nat -> K -> bool) (a b : poly K),
+  psub_assign_src K kadd ksub kopp ksmall false a b = psub K ksub kopp (ksmall 100) a b.
+Proof. exact PolyGenProofs.psub_assign_src_distinct. Qed.
+Print Assumptions psub_assign_src_distinct.
+
+Theorem psub_assign_src_aliased :
+  forall (K : Type) (kadd ksub : K -> K -> K) (kopp : K -> K) (ksmall : nat -> K -> bool) (a b : poly K),
+  psub_assign_src K kadd ksub kopp ksmall true a b = [].
+Proof. exact PolyGenProofs.psub_assign_src_aliased. Qed.
+Print Assumptions psub_assign_src_aliased.
+
 Theorem pneg_src_is_model :
   forall (K : Type) (kopp : K -> K) (a : poly K), pneg_src K kopp a = pneg K kopp a.
 Proof. exact PolyGenProofs.pneg_src_is_model. Qed.
@@ -427,6 +445,17 @@ Theorem psub_sound_src :
   ksub (coef_poly K k0 k1 kadd kmul kopp a s t) (coef_poly K k0 k1 kadd kmul kopp b s t).
 Proof. exact PolyGenProofs.psub_sound_src. Qed.
 Print Assumptions psub_sound_src.
+
+(** operator-= in every calling situation, `S -= S` included (an aliased operand has the value of *this) *)
+Theorem psub_assign_sound_src :
+  forall (K : Type) (k0 k1 : K) (kadd kmul ksub : K -> K -> K) (kopp : K -> K) (ksmall : nat -> K -> bool),
+  ring_ok K k0 k1 kadd kmul ksub kopp (ksmall 100) ->
+  forall (aliased : bool) (a b : poly K) (s t : state),
+  (aliased = true -> b = a) ->
+  coef_poly K k0 k1 kadd kmul kopp (psub_assign_src K kadd ksub kopp ksmall aliased a b) s t =
+  ksub (coef_poly K k0 k1 kadd kmul kopp a s t) (coef_poly K k0 k1 kadd kmul kopp b s t).
+Proof. exact PolyGenProofs.psub_assign_sound_src. Qed.
+Print Assumptions psub_assign_sound_src.
 
 Theorem pneg_sound_src :
   forall (K : Type) (k0 k1 : K) (kadd kmul ksub : K -> K -> K) (kopp : K -> K) (ksmall : nat -> K -> bool),
